@@ -12,8 +12,13 @@ def run(tier, seed, prop='C04'):
                        'iteration / event (queue rule), and implies the postcondition over the returned (trimmed) arrays, for all '
                        'graphs, rates, horizons, weights and initial sets. "ends with no infected node" is proved for the Gillespie '
                        'simulators (unbounded horizon, gamma>0).')
+    from ..replay import sim_native
+    rep.bounded_is_supplementary = True
+    rep.add(util.native_ob('native:rows-well-formed:all-simulators', 'EoN/simulation.py:(all simulators)', sim_native.c04_native,
+                           'one 7-node graph with an isolated node, 3 (tmin, tmax) combinations, weighted / unweighted, rate 0, fixed delays tying with tmax, 4 seeds, every simulator incl. the discrete and generic ones'))
+    r = util.native_replayer
     rep.not_covered += [
-        'fast_SIS, fast_nonMarkov_SIS, Gillespie_simple_contagion, Gillespie_complex_contagion, discrete_SIR, basic_discrete_SIS: row invariant not under contract in this check (see C12/C15 for their own obligations)',
+        'fast_SIS, fast_nonMarkov_SIS, Gillespie_simple_contagion, Gillespie_complex_contagion, basic_discrete_SIS: row invariant not under contract (only the bounded native stand-in); discrete_SIR: see C12',
         'fast_nonMarkov_SIR: "unbounded horizon ends with no infected node" needs "every infectious node has a pending recovery", which is not part of the proved global invariant',
         'termination',
     ]
